@@ -8,6 +8,7 @@ package imports
 
 import (
 	"bufio"
+	"bytes"
 	"errors"
 	"io"
 	"unicode/utf8"
@@ -30,6 +31,8 @@ var (
 	errSyntax = errors.New("syntax error")
 	errNUL    = errors.New("unexpected NUL in input")
 )
+
+var bom = []byte{0xef, 0xbb, 0xbf}
 
 // syntaxError records a syntax error, but only if an I/O error has not already been recorded.
 func (r *importReader) syntaxError() {
@@ -214,6 +217,14 @@ func ReadComments(f io.Reader) ([]byte, error) {
 // and stops reading the input once the imports have completed.
 func ReadImports(f io.Reader, reportSyntaxError bool, imports *[]string) ([]byte, error) {
 	r := &importReader{b: bufio.NewReader(f)}
+
+	// Remove leading UTF-8 BOM, as go/build does.
+	// Per https://golang.org/ref/spec#Source_code_representation:
+	// a compiler may ignore a UTF-8-encoded byte order mark (U+FEFF)
+	// if it is the first Unicode code point in the source text.
+	if lead, err := r.b.Peek(len(bom)); err == nil && bytes.Equal(lead, bom) {
+		r.b.Discard(len(bom))
+	}
 
 	r.readKeyword("package")
 	r.readIdent()
